@@ -13,6 +13,8 @@ import (
 	"go.6river.tech/mmmbbb/controllers"
 	"go.6river.tech/mmmbbb/db"
 	"go.6river.tech/mmmbbb/middleware"
+	"google.golang.org/protobuf/types/known/durationpb"
+	"google.golang.org/protobuf/types/known/timestamppb"
 )
 
 var dbNameOnce sync.Once
@@ -34,3 +36,7 @@ func (r *Run) setDelayHTTP(sub string, d time.Duration) (int, error) {
 	eng.ServeHTTP(rec, req)
 	return rec.Code, nil
 }
+
+func timestamppbNew(t time.Time) *timestamppb.Timestamp { return timestamppb.New(t) }
+
+func durationpbNew(d time.Duration) *durationpb.Duration { return durationpb.New(d) }
